@@ -63,6 +63,10 @@ def build(inst, start, seq, L, second):
         ops += [[0, 'tick', 5100000], [0, 'proc', 1, 1]]
     for _ in range(14):
         ops += [[0, 'tick', tbs + 13], [0, 'proc', 1, 1], [0, 'proc', 1, 1]]
+    if inst['params'].get('rate_limit_enable'):
+        # one frame per limiter window: a transfer granted before the closing phase legitimately needs one window per frame
+        for _ in range(16):
+            ops += [[0, 'tick', 126 * 10**6], [0, 'proc', 1, 1], [0, 'proc', 1, 1]]
     return {'insts': [inst], 'ops': ops, 'nops': len(ops), 'mark': mark, 'seq': list(seq)}
 
 
@@ -121,7 +125,7 @@ def oracle(case, lines, insts):
         nxt = k + 1
     last = lines[-1]
     if 'trans=1' in last:
-        fails.append(('C04:transmitter-wedged', 'transmitting() still True after 14 further deadlines of idle passes: %s' % split_line(last)[1]))
+        fails.append(('C04:transmitter-wedged', 'transmitting() still True after 14 further deadlines of idle passes (and 16 limiter windows when rate limited): %s' % split_line(last)[1]))
     done = [e for l in lines for e in split_line(l)[0] if e.startswith('done:')]
     ids = [d.split(':')[1] for d in done]
     if len(ids) != len(set(ids)):
